@@ -126,3 +126,74 @@ func polling(c *rig.Ctx) {
 		c.Case(rig.Hash(uint64(i), uint64(page), r.U64()))
 	})
 }
+
+// armed: right after starting a transfer (LCD on, every phase of the scanline) the guest executes
+// one 16-bit increment or decrement of a register pair that points into FE00-FEFF - the
+// instruction kind that can set off the OAM bug when it falls into mode 2 - and then leaves
+// OAM alone. At that point the transfer has copied at most the first few bytes, and whatever
+// the bug does, it does at once and to rows that the transfer has yet to copy: when the
+// transfer is over, OAM must hold the source bytes.
+func armed(c *rig.Ctx) {
+	c.Require("armed_transfers", "armed_in_mode2")
+	ops := []uint8{0x03, 0x13, 0x23, 0x33, 0x0b, 0x1b, 0x2b, 0x3b}
+	c.Part("armed", 114*int64(len(ops)), func(i int64, r *rig.Rng) {
+		rom := rig.BlankROM(0, 0, 0)
+		copy(rom[0x3000:], r.Bytes(0x1000))
+		pc := 0x150
+		emit := func(b ...byte) { copy(rom[pc:], b); pc += len(b) }
+		rig.Put(rom, 0x100, 0x00, 0xc3, 0x50, 0x01)
+		emit(0xf3, 0x31, uint8(r.Intn(0x100)), 0xfe)
+		emit(0x11, uint8(r.Intn(0x100)), 0xfe)
+		emit(0x21, uint8(r.Intn(0x100)), 0xfe)
+		emit(0x01, uint8(r.Intn(0x100)), 0xfe)
+		for k := int(i % 114); k > 0; k-- {
+			emit(0x00)
+		}
+		page := uint8(0xc0 + r.Intn(0x20))
+		if r.Chance(1, 3) {
+			page = uint8(0x30 + r.Intn(0x10))
+		}
+		emit(0x3e, page, 0xe0, 0x46)
+		for k := r.Intn(3); k > 0; k-- {
+			emit(0x00)
+		}
+		op := ops[i/114]
+		at := pc
+		emit(op)
+		for k := 0; k < 175; k++ {
+			emit(0x00)
+		}
+		end := pc
+		emit(0x18, 0xfe)
+		m := rig.MustNew(rom, rig.Opts{})
+		var src [160]uint8
+		for k := range src {
+			src[k] = r.U8()
+			if page >= 0xc0 {
+				m.Mem.Write(uint16(page)<<8+uint16(k), src[k])
+			} else {
+				src[k] = rom[int(page)<<8+k]
+			}
+		}
+		for k := 0; k < 4000; k++ {
+			pcNow := int(m.CPU.XGetRegs().PC)
+			if pcNow == end && m.CPU.XAtBoundary() {
+				break
+			}
+			if pcNow == at && m.CPU.XAtBoundary() && m.Mem.Read(0xff41)&3 == 2 {
+				c.Count("armed_in_mode2", 1)
+			}
+			m.Step()
+		}
+		snap := m.OAM.XSnapshot()
+		for k := 0; k < 160; k++ {
+			if snap[k] != src[k] {
+				c.Violate("armed-dma-contents", fmt.Sprintf("transfer from page %02X started %d cycles into the program's line phase (LCD on), opcode %02X (16-bit INC/DEC of a pointer into FE00-FEFF) executed right after the start and OAM left alone from then on: after the transfer OAM[%02X] holds %02X, the source byte was %02X", page, i%114, op, k, snap[k], src[k]), nil)
+				return
+			}
+		}
+		c.Count("armed_transfers", 1)
+		c.Exact(1)
+	})
+}
+
